@@ -183,9 +183,10 @@ static void case_c06(const drvargs_t *a,long id,const char *envpath){
   static const long rates[]={8000,11025,16000,22050,32000,44100,48000,96000,44100,48000};
   static const int chq[]={1,2,2,6,1,2}; static const int cht[]={1,2,3,4,5,6,8,2,1,2};
   static const float qs[]={-0.1f,0.1f,0.3f,0.5f,0.7f,1.0f};
-  static const int sigs[]={SIG_MULTI,SIG_GATED,SIG_SWEEP,SIG_NOISE,SIG_CLICKS,SIG_BURSTS,SIG_WIDE,SIG_MULTI,SIG_WIDE,SIG_GATED};
+  static const int sigs[]={SIG_MULTI,SIG_GATED,SIG_SWEEP,SIG_NOISE,SIG_CLICKS,SIG_BURSTS,SIG_WIDE,SIG_MULTI,SIG_WIDE,SIG_GATED,SIG_ONSET};
   c.rate=rates[id%10]; c.channels=a->thorough?cht[(id/10)%10]:chq[(id/10)%6];
-  c.sig=sigs[(id/7)%10]; c.sigseed=rng_next(&r);
+  c.sig=sigs[(id/7)%11]; c.sigseed=rng_next(&r);
+  if(c.sig==SIG_ONSET){ /* put the burst into a random channel that exists (bits 8..13 of the seed select it) */ int bch=(int)rng_below(&r,(uint32_t)c.channels); c.sigseed=(c.sigseed&~(uint64_t)0x3f00)|((uint64_t)bch<<8); }
   long N=(long)(c.rate*(0.9+0.5*rng_unit(&r))); if(N>64000)N=64000; if(c.channels>2 && N>40000)N=40000;
   c.nsamples=N; c.chunk=CHUNK_RANDOM;
   int managed = (id%6==5);
@@ -240,6 +241,16 @@ static void case_c06(const drvargs_t *a,long id,const char *envpath){
       if(bn<0.6){ res_count("channels_too_weakly_correlated_to_judge_lag",1); snprintf(key,sizeof key,"weak_peak_ncorr|%s",sig_name(c.sig)); res_metric(key,bn); continue; }
       aligned_checked++;
       if(bl!=0){ res_viol("C06","misaligned","channel %d: cross-correlation peaks at lag %ld (r=%.3f; %.4g vs %.4g at 0): %s",ch,bl,bn,best,c0,desc); ok=0; }
+    }
+    /* pre-echo: a burst out of digital silence must not be smeared far ahead of its onset (transient detection -> short blocks) */
+    if(c.sig==SIG_ONSET && !nonfinite){
+      int bch; long t0; sig_onset_params(c.sigseed,c.channels,N,&bch,&t0);
+      if(bch<c.channels && t0>1800 && t0+1000<N){
+        double epre=0,eb=0; for(long i=t0-1700;i<t0-700;i++) epre+=(double)pd.pcm[bch][i]*pd.pcm[bch][i]; for(long i=t0;i<t0+1000;i++) eb+=(double)pd.pcm[bch][i]*pd.pcm[bch][i];
+        double db= eb>0? 10*log10((epre+1e-30)/eb) : 0;
+        res_metric("preecho_db_700_to_1700_before_onset", db<-300?-300:db); res_count("preecho_checks",1);
+        if(eb>0 && db>-45.0){ res_viol("C06","pre-echo-far-ahead-of-onset","channel %d: energy 700-1700 samples before the burst is %.1f dB relative to the burst (limit -45 dB): %s",bch,db,desc); ok=0; }
+      }
     }
     /* channel identity (signals with per-channel distinct content) */
     if(!nonfinite && c.channels>1 && (c.sig==SIG_MULTI||c.sig==SIG_NOISE||c.sig==SIG_GATED||c.sig==SIG_WIDE) && (managed|| qi[k]>=1)){
